@@ -113,11 +113,11 @@ Definition pinv (fl : flags) (p : pstate) : bool :=
 
 Definition labels3 : list label :=
   flat_map (fun k => [AInvoke k; ARegister k; ASchedule k; ASend k; AComplete k; AResp k true; AResp k false]) [0; 1; 2]
-  ++ [APush true; APush false; ACloseReq; ACut; AReset; AClean].
+  ++ [AConnect true; AConnect false; APush true; APush false; ACloseReq; ACut; AReset; AClean].
 
 (* ---- structural equality *)
 Definition exn_code (e : exn) : N :=
-  match e with XNotEst => 0 | XAttr => 1 | XConnFail => 2 | XCloseConn => 3 | XOther => 4 end.
+  match e with XNotEst => 0 | XAttr => 1 | XConnFail => 2 | XCloseConn => 3 | XOther => 4 | XCreateConn => 5 end.
 Definition exn_eqb (a b : exn) : bool := N.eqb (exn_code a) (exn_code b).
 Definition fut_eqb (a b : fut) : bool :=
   match a, b with
@@ -143,7 +143,7 @@ Definition call_eqb (a b : call) : bool :=
   Bool.eqb (c_close a) (c_close b) && pc_eqb (c_pc a) (c_pc b) && fut_eqb (c_fut a) (c_fut b) && Bool.eqb (c_sent a) (c_sent b).
 Definition lstate_eqb (a b : lstate) : bool :=
   match a, b with
-  | LRun, LRun | LExit, LExit | LCrash, LCrash => true
+  | LInit, LInit | LRun, LRun | LExit, LExit | LCrash, LCrash => true
   | LClean e i d, LClean e' i' d' => exn_eqb e e' && Nat.eqb i i' && Bool.eqb d d'
   | _, _ => false
   end.
@@ -163,41 +163,41 @@ Definition mstat_eqb (a b : mstat) : bool :=
   | _, _ => false
   end.
 Definition mon_eqb (a b : mon) : bool :=
-  list_eqb mstat_eqb (m_st a) (m_st b) && Bool.eqb (m_lost a) (m_lost b) && Bool.eqb (m_bad a) (m_bad b).
+  list_eqb mstat_eqb (m_st a) (m_st b) && Bool.eqb (m_lost a) (m_lost b) && Bool.eqb (m_conn a) (m_conn b) && Bool.eqb (m_bad a) (m_bad b).
 Definition pstate_eqb (a b : pstate) : bool := state_eqb (fst a) (fst b) && mon_eqb (snd a) (snd b).
 
 (* ---- hash into positive (soundness does not depend on it; a collision only makes the check fail) *)
 Definition b2n (b : bool) : N := if b then 1%N else 0%N.
 Definition body_code (b : body) : N := match b with BClose => 0 | BVal z => 1 + Z.to_N z end.
 Definition fut_code (f : fut) : N :=
-  match f with FUnres => 0 | FExc e => 1 + exn_code e | FVal b => 6 + body_code b end.
+  match f with FUnres => 0 | FExc e => 1 + exn_code e | FVal b => 8 + body_code b end.
 Definition result_code (r : result) : N :=
-  match r with RNoop => 0 | RExc e => 1 + exn_code e | RVal b => 6 + body_code b end.
+  match r with RNoop => 0 | RExc e => 1 + exn_code e | RVal b => 8 + body_code b end.
 Definition pc_code (p : pc) : N :=
   match p with PIdle => 0 | PChecked => 1 | PRegd => 2 | PSched => 3 | PAwait => 4 | PDone r => 5 + result_code r end.
 Definition call_code (c : call) : N :=
-  ((pc_code (c_pc c) * 16 + fut_code (c_fut c)) * 2 + b2n (c_close c)) * 2 + b2n (c_sent c).
+  ((pc_code (c_pc c) * 32 + fut_code (c_fut c)) * 2 + b2n (c_close c)) * 2 + b2n (c_sent c).
 Definition lstate_code (l : lstate) : N :=
-  match l with LRun => 0 | LExit => 1 | LCrash => 2 | LClean e i d => 3 + ((exn_code e * 8 + N.of_nat i) * 2 + b2n d) end.
+  match l with LRun => 0 | LExit => 1 | LCrash => 2 | LInit => 3 | LClean e i d => 4 + ((exn_code e * 8 + N.of_nat i) * 2 + b2n d) end.
 Definition mstat_code (m : mstat) : N :=
   match m with MIdle => 0 | MCalled => 1 | MDone => 2 | MAnswered b => 3 + body_code b end.
 Definition enc_pstate (p : pstate) : positive :=
   let s := fst p in let m := snd p in
-  let a := fold_left (fun acc c => acc * 2048 + call_code c)%N (calls s) (N.of_nat (length (calls s))) in
+  let a := fold_left (fun acc c => acc * 4096 + call_code c)%N (calls s) (N.of_nat (length (calls s))) in
   let a := fold_left (fun acc k => acc * 8 + (1 + N.of_nat k))%N (pending s) (a * 8)%N in
   let a := (a * 128 + lstate_code (lst s))%N in
   let a := (((a * 2 + b2n (writer s)) * 2 + b2n (copen s)) * 2 + b2n (running s))%N in
   let a := fold_left (fun acc x => acc * 16 + mstat_code x)%N (m_st m) a in
-  N.succ_pos ((a * 2 + b2n (m_lost m)) * 2 + b2n (m_bad m)).
+  N.succ_pos (((a * 2 + b2n (m_lost m)) * 2 + b2n (m_conn m)) * 2 + b2n (m_bad m)).
 
 Definition fl_fixed : flags := mkFlags true true.
 
-Definition p_init (nn nc : nat) : pstate := (init_cfg nn nc, mon_init (nn + nc)).
+Definition p_init (c0 : bool) (nn nc : nat) : pstate := (init_cfg c0 nn nc, mon_init (nn + nc)).
 
-Definition check_cfg (fuel : nat) (nn nc : nat) : bool :=
-  check_from (pstep fl_fixed) enc_pstate pstate_eqb labels3 (pinv fl_fixed) fuel (p_init nn nc).
-Definition count_cfg (fuel : nat) (nn nc : nat) : nat :=
-  count_from (pstep fl_fixed) enc_pstate pstate_eqb labels3 fuel (p_init nn nc).
+Definition check_cfg (fuel : nat) (c0 : bool) (nn nc : nat) : bool :=
+  check_from (pstep fl_fixed) enc_pstate pstate_eqb labels3 (pinv fl_fixed) fuel (p_init c0 nn nc).
+Definition count_cfg (fuel : nat) (c0 : bool) (nn nc : nat) : nat :=
+  count_from (pstep fl_fixed) enc_pstate pstate_eqb labels3 fuel (p_init c0 nn nc).
 
 (* ------------------------------------------------------------------ soundness of the equality test *)
 Lemma body_eqb_sound : forall a b, body_eqb a b = true -> a = b.
@@ -238,7 +238,7 @@ Proof.
 Qed.
 Lemma lstate_eqb_sound : forall a b, lstate_eqb a b = true -> a = b.
 Proof.
-  intros [|e i d| |] [|e' i' d'| |] H; cbn in H; try discriminate; try reflexivity.
+  intros [| |e i d| |] [| |e' i' d'| |] H; cbn in H; try discriminate; try reflexivity.
   repeat (apply andb_true_iff in H; destruct H as [H ?]).
   apply exn_eqb_sound in H. apply Nat.eqb_eq in H1. apply bool_eqb_sound in H0. subst. reflexivity.
 Qed.
@@ -259,9 +259,9 @@ Proof.
 Qed.
 Lemma mon_eqb_sound : forall a b, mon_eqb a b = true -> a = b.
 Proof.
-  intros [a1 a2 a3] [b1 b2 b3] H. unfold mon_eqb in H. cbn in H.
+  intros [a1 a2 a3 a4] [b1 b2 b3 b4] H. unfold mon_eqb in H. cbn in H.
   repeat (apply andb_true_iff in H; destruct H as [H ?]).
-  apply (list_eqb_sound _ _ mstat_eqb_sound) in H. apply bool_eqb_sound in H1. apply bool_eqb_sound in H0.
+  apply (list_eqb_sound _ _ mstat_eqb_sound) in H. apply bool_eqb_sound in H2. apply bool_eqb_sound in H1. apply bool_eqb_sound in H0.
   subst. reflexivity.
 Qed.
 Lemma pstate_eqb_sound : forall a b, pstate_eqb a b = true -> a = b.
@@ -288,7 +288,7 @@ Proof.
   apply Nat.leb_le in Hlen.
   unfold pstep in Hs. cbn [fst snd] in Hs.
   destruct (step fl s l) as [[s' ev]|] eqn:Hst; [|discriminate]. clear Hs.
-  destruct l as [k|k|k|k|k|k ok|ok| | | |]; cbn [step] in Hst;
+  destruct l as [k|k|k|k|k|ok|k ok|ok| | | |]; cbn [step] in Hst;
     try (destruct (nth_error (calls s) k) as [c|] eqn:Hn; [|discriminate];
          destruct (nth_error_lt3 s k c Hlen Hn) as [->|[->| ->]]);
     try (destruct ok); cbn; tauto.
@@ -310,46 +310,48 @@ Proof.
 Qed.
 
 (* ------------------------------------------------------------------ the finite configuration space *)
-Definition cfgs : list (nat * nat) :=
+Definition cfgs0 : list (nat * nat) :=
   [(0,0); (1,0); (0,1); (2,0); (1,1); (0,2); (3,0); (2,1); (1,2); (0,3)].
+Definition cfgs : list (bool * (nat * nat)) := map (pair true) cfgs0 ++ map (pair false) cfgs0.
 
-Lemma cfgs_complete : forall nn nc, nn + nc <= 3 -> In (nn, nc) cfgs.
+Lemma cfgs_complete : forall c0 nn nc, nn + nc <= 3 -> In (c0, (nn, nc)) cfgs.
 Proof.
-  intros nn nc H. unfold cfgs.
-  destruct nn as [|[|[|[|nn]]]]; destruct nc as [|[|[|[|nc]]]]; cbn; try lia; tauto.
+  intros c0 nn nc H. unfold cfgs, cfgs0. apply in_or_app.
+  destruct c0; [left|right];
+    (destruct nn as [|[|[|[|nn]]]]; destruct nc as [|[|[|[|nc]]]]; cbn; try lia; tauto).
 Qed.
 
 Definition fuel0 : nat := N.to_nat 400000.
 
-Lemma cfgs_checked : forallb (fun c => check_cfg fuel0 (fst c) (snd c)) cfgs = true.
+Lemma cfgs_checked : forallb (fun c => check_cfg fuel0 (fst c) (fst (snd c)) (snd (snd c))) cfgs = true.
 Proof. vm_compute. reflexivity. Qed.
 
 (* the sizes of the closed sets, for the record *)
-Definition cfg_sizes : list nat := map (fun c => count_cfg fuel0 (fst c) (snd c)) cfgs.
+Definition cfg_sizes : list nat := map (fun c => count_cfg fuel0 (fst c) (fst (snd c)) (snd (snd c))) cfgs.
 
-Lemma cfg_checked_at : forall nn nc, In (nn, nc) cfgs -> check_cfg fuel0 nn nc = true.
+Lemma cfg_checked_at : forall c0 nn nc, In (c0, (nn, nc)) cfgs -> check_cfg fuel0 c0 nn nc = true.
 Proof.
-  intros nn nc H.
-  exact (proj1 (forallb_forall (fun c => check_cfg fuel0 (fst c) (snd c)) cfgs) cfgs_checked (nn, nc) H).
+  intros c0 nn nc H.
+  exact (proj1 (forallb_forall (fun c => check_cfg fuel0 (fst c) (fst (snd c)) (snd (snd c))) cfgs) cfgs_checked (c0, (nn, nc)) H).
 Qed.
 
-Lemma cfg_invariant : forall fuel nn nc, check_cfg fuel nn nc = true ->
-  forall tr s h, exec fl_fixed (init_cfg nn nc) tr = Some (s, h) ->
+Lemma cfg_invariant : forall fuel c0 nn nc, check_cfg fuel c0 nn nc = true ->
+  forall tr s h, exec fl_fixed (init_cfg c0 nn nc) tr = Some (s, h) ->
   pinv fl_fixed (s, mon_run (mon_init (nn + nc)) h) = true.
 Proof.
-  intros fuel nn nc Hc tr s h He.
+  intros fuel c0 nn nc Hc tr s h He.
   exact (check_from_invariant (pstep fl_fixed) enc_pstate pstate_eqb pstate_eqb_sound labels3 (pinv fl_fixed)
-           (labels3_complete fl_fixed) fuel (p_init nn nc) Hc tr (s, mon_run (mon_init (nn + nc)) h)
-           (exec_pexec fl_fixed tr (init_cfg nn nc) (mon_init (nn + nc)) s h He)).
+           (labels3_complete fl_fixed) fuel (p_init c0 nn nc) Hc tr (s, mon_run (mon_init (nn + nc)) h)
+           (exec_pexec fl_fixed tr (init_cfg c0 nn nc) (mon_init (nn + nc)) s h He)).
 Qed.
 
-Theorem all_runs_pass : forall nn nc, nn + nc <= 3 ->
-  forall tr s h, exec fl_fixed (init_cfg nn nc) tr = Some (s, h) ->
+Theorem all_runs_pass : forall c0 nn nc, nn + nc <= 3 ->
+  forall tr s h, exec fl_fixed (init_cfg c0 nn nc) tr = Some (s, h) ->
     check_prefix (nn + nc) h = true /\
     (quiescent fl_fixed s = true -> check_history (nn + nc) h = true).
 Proof.
-  intros nn nc Hn tr s h He.
-  pose proof (cfg_invariant fuel0 nn nc (cfg_checked_at nn nc (cfgs_complete nn nc Hn)) tr s h He) as Hinv.
+  intros c0 nn nc Hn tr s h He.
+  pose proof (cfg_invariant fuel0 c0 nn nc (cfg_checked_at c0 nn nc (cfgs_complete c0 nn nc Hn)) tr s h He) as Hinv.
   unfold pinv in Hinv. cbn [fst snd] in Hinv.
   apply andb_true_iff in Hinv. destruct Hinv as [Hinv Hq]. apply andb_true_iff in Hinv. destruct Hinv as [_ Hb].
   split.
@@ -360,8 +362,8 @@ Qed.
 (* the same for any flag record that says what fl_fixed says (the form used by Properties.v with the generated flags) *)
 Lemma all_runs_pass_flags : forall fl (cleans : bool),
   f_snapshot fl = true -> f_clear_writer fl = true -> cleans = true ->
-  forall nn nc, nn + nc <= 3 ->
-  forall tr s h, exec fl (init_cfg nn nc) tr = Some (s, h) ->
+  forall c0 nn nc, nn + nc <= 3 ->
+  forall tr s h, exec fl (init_cfg c0 nn nc) tr = Some (s, h) ->
     check_prefix (nn + nc) h = true /\
     (quiescent fl s = true -> check_history (nn + nc) h = true).
 Proof.
